@@ -18,8 +18,8 @@
 EXTENDS Server, Framing, TLC, Json, IOUtils
 
 Traces == JsonDeserialize(IOEnv.TRACE_FILE).traces
-VARIABLES tr, i, tab, fed, done, out
-vars == <<tr, i, tab, fed, done, out>>
+VARIABLES tr, i, tab, fed, done, written, out
+vars == <<tr, i, tab, fed, done, written, out>>
 T == Traces[tr]
 
 PairsToFn(ps) == [a \in {ps[k][1] : k \in 1..Len(ps)} |-> ps[CHOOSE k \in 1..Len(ps) : ps[k][1] = a][2]]
@@ -35,6 +35,7 @@ Init == /\ tr \in 1..Len(Traces) /\ i = 1
         /\ tab = [u \in {T.units[k][1] : k \in 1..Len(T.units)} |-> MkCtx(PairsToFn(T.units)[u])]
         /\ fed = [c \in 1..Len(Traces[tr].sent) |-> 0]
         /\ done = [c \in 1..Len(Traces[tr].sent) |-> 0]
+        /\ written = [c \in 1..Len(Traces[tr].sent) |-> <<>>]     \* every response frame written to c so far (mode "resync")
         /\ out = "run"
 
 (* ---- one frame per write: parse it by the grammar of the framing ---------- *)
@@ -162,7 +163,26 @@ GhostOK == \A c \in 1..Len(T.sent) : \A k \in 1..Len(T.sent[c]) :
              LET f == T.sent[c][k] IN
              f.exp = 1 => SubSeq(T.streams[c], f.start, f.start + f.len - 1) = Build(T.kind, f.tid, f.pid, f.uid, f.pdu)
 
-Eval(ev) == IF T.mode = "strict" \/ ev.op = "probe" THEN EvalStrict(ev) ELSE EvalHostile(ev)
+(* mode "resync" (C11 through a serving handler): hostile rules, plus: every valid request for a hosted unit that started more *)
+(* than two maximum-size frames after the last garbage byte (T.g) and is wholly received must have been answered by now.     *)
+(* The requests of such a history read distinct cells holding distinct values, so a response identifies its request.        *)
+ResyncFails(ev, allouts) ==
+  LET c == ev.conn
+      nfed == fed[c] + ev.n
+      fr == NewFrames(c, nfed)          \* the frames completed by this read (the handlers serve synchronously)
+      late == {k \in 1..Len(fr) : fr[k].exp = 1 /\ fr[k].start > T.g + 2 * MaxFrame(T.kind)}
+      ws == WritesTo(ev, c)
+      answered(k) == LET f == fr[k]
+                         e == Exec(tab[Key(Cfg, f.uid)], ParseReq(f.pdu)) IN
+                     \E j \in 1..Len(ws) : LET p == ParseFrame(T.kind, ws[j].bytes) IN p.ok /\ p.uid = f.uid /\ p.pdu = Encode(e.rsp)
+  IN IF \E k \in late : ~answered(k) THEN {"ServerResync"} ELSE {}
+
+Eval(ev) == IF T.mode = "strict" \/ ev.op = "probe" THEN EvalStrict(ev)
+            ELSE IF T.mode = "resync"
+                 THEN LET h == EvalHostile(ev)
+                          allouts == written[ev.conn] \o [k \in 1..Len(WritesTo(ev, ev.conn)) |-> WritesTo(ev, ev.conn)[k].bytes]
+                      IN [h EXCEPT !.fail = @ \cup ResyncFails(ev, allouts)]
+                 ELSE EvalHostile(ev)
 
 Verdict(status, step, clauses, detail) ==
   PrintT("VERDICT " \o ToJson([id |-> T.id, status |-> status, step |-> step, clauses |-> clauses, detail |-> detail]))
@@ -175,7 +195,8 @@ Step ==
      IN /\ IF f # {} THEN Verdict("FAIL", i, f, [expected |-> e.exp, op |-> ev.op]) /\ out' = "done"
            ELSE IF i = Len(T.ev) THEN Verdict("OK", i, {}, [n |-> i]) /\ out' = "done" ELSE out' = "run"
         /\ tab' = e.tab /\ fed' = e.fed /\ done' = e.done
+        /\ written' = [written EXCEPT ![ev.conn] = @ \o [k \in 1..Len(WritesTo(ev, ev.conn)) |-> WritesTo(ev, ev.conn)[k].bytes]]
   /\ i' = i + 1 /\ UNCHANGED tr
-Empty == out = "run" /\ Len(T.ev) = 0 /\ Verdict("OK", 0, {}, [n |-> 0]) /\ out' = "done" /\ UNCHANGED <<tr, i, tab, fed, done>>
+Empty == out = "run" /\ Len(T.ev) = 0 /\ Verdict("OK", 0, {}, [n |-> 0]) /\ out' = "done" /\ UNCHANGED <<tr, i, tab, fed, done, written>>
 Spec == Init /\ [][Step \/ Empty]_vars
 =============================================================================
